@@ -17,7 +17,9 @@
 (*     current unit to the end of the file, then from the top; first match  *)
 (*  R8 call pushes a frame (return position, rest of the block, %1..%9);    *)
 (*     exit /B pops it; R12 at the outermost frame it ends the script        *)
-(*  R9 labels, ::, rem and a stray ")" are no-ops                            *)
+(*  R9 labels, ::, rem and a line that starts with a stray ")" - also        *)
+(*     ") else (" and ") else if .. (" met outside any block, which is what *)
+(*     is left of an if after a jump into one of its branches - are no-ops  *)
 (*  R10 for /f "delims=" %%i in ("text") do ... over the lines of text       *)
 (*  R11 echo text / echo.                                                    *)
 (* Anything else makes the run "unsupported" (never compared).              *)
@@ -124,7 +126,7 @@ EndOfFile == /\ blk = <<>> /\ pc > NLines
 Exec ==
   /\ blk # <<>>
   /\ LET c == Cur  fv == Top.fv  rest == Advanced IN
-     CASE c.op \in {"nop", "label", "strayclose"} ->
+     CASE c.op \in {"nop", "label", "strayclose", "strayelse"} ->
             blk' = rest /\ UNCHANGED <<pc, calls, env, out, status, code>>
        [] c.op = "setlf" -> blk' = rest /\ env' = Put(env, "LF", "\n") /\ UNCHANGED <<pc, calls, out, status, code>>
        [] c.op = "set" -> blk' = rest /\ env' = Put(env, Exp(c.name, fv, env), Exp(c.value, fv, env))
